@@ -2,6 +2,7 @@
 from __future__ import annotations
 
 import ast
+import functools
 import builtins
 import enum
 import hashlib
@@ -322,6 +323,10 @@ class Interp:
     def s_Pass(self, s, env, globs):
         pass
 
+    def s_Global(self, s, env, globs):
+        # names declared global are read from / written to the module dictionary (restored between paths, see vlib.api.ModuleState)
+        env.setdefault("__global_names__", set()).update(s.names)
+
     def s_Return(self, s, env, globs):
         raise _Return(self.eval(s.value, env, globs) if s.value else None)
 
@@ -346,7 +351,7 @@ class Interp:
         t = s.target
         if isinstance(t, ast.Name):
             cur = self.lookup(t.id, env, globs)
-            env[t.id] = (iop or op)(cur, self.eval(s.value, env, globs))
+            (globs if t.id in env.get("__global_names__", ()) else env)[t.id] = (iop or op)(cur, self.eval(s.value, env, globs))
         elif isinstance(t, ast.Subscript):
             obj = self.eval(t.value, env, globs)
             key = self.eval_slice(t.slice, env, globs)
@@ -463,7 +468,7 @@ class Interp:
     # ------------------------------------------------------------------ assignment targets
     def assign(self, t, v, env, globs):
         if isinstance(t, ast.Name):
-            env[t.id] = v
+            (globs if t.id in env.get("__global_names__", ()) else env)[t.id] = v
         elif isinstance(t, (ast.Tuple, ast.List)):
             vals = list(v)
             if len(vals) != len(t.elts):
@@ -530,6 +535,12 @@ class Interp:
             p = _static_getattr(type(obj), e.attr)
             if isinstance(p, property) and p.fget is not None and self.is_target(p.fget):
                 return self.run_function(p.fget, (obj,), {})
+            if isinstance(p, functools.cached_property) and self.is_target(p.func):
+                # functools.cached_property: computed once per instance, kept in the instance dictionary
+                cache = obj.__dict__
+                if e.attr not in cache:
+                    cache[e.attr] = self.run_function(p.func, (obj,), {})
+                return self.subst(cache[e.attr])
         return self.subst(getattr(obj, e.attr))
 
     def e_Subscript(self, e, env, globs):
